@@ -747,9 +747,10 @@ type c03Profile struct {
 }
 
 // a small fixed address plan so that subnets are shared
-//   v4 hosts 10.1.N.H (N in 0..2, H in 1..3)      /24 subnets 10.1.N.0
-//   v6 hosts fd00:0:0:N00::H (N in 0..1)           /56 subnets
-//   allow-listed networks: 10.1.0.0/24 (any peer), 10.1.1.0/24 (peer-bound), fd00::/56 (any peer)
+//
+//	v4 hosts 10.1.N.H (N in 0..2, H in 1..3)      /24 subnets 10.1.N.0
+//	v6 hosts fd00:0:0:N00::H (N in 0..1)           /56 subnets
+//	allow-listed networks: 10.1.0.0/24 (any peer), 10.1.1.0/24 (peer-bound), fd00::/56 (any peer)
 func c03GenEp(rd *verifh.Rand) c03Ep {
 	switch rd.Intn(10) {
 	case 0:
@@ -1216,7 +1217,9 @@ func c03BaseCfg() *c03Cfg {
 }
 
 func c03Corpus(t testing.TB, out *verifh.Out) {
-	v4 := func(n, h int) c03Ep { return c03Ep{hasIP: true, w: [4]uint32{10<<24 | 1<<16 | uint32(n)<<8 | uint32(h)}} }
+	v4 := func(n, h int) c03Ep {
+		return c03Ep{hasIP: true, w: [4]uint32{10<<24 | 1<<16 | uint32(n)<<8 | uint32(h)}}
+	}
 	run := func(name string, cfg *c03Cfg, ops []c03Op) {
 		r := c03NewRun(t, out, cfg, 0)
 		defer r.close()
@@ -1275,6 +1278,23 @@ func c03Corpus(t testing.TB, out *verifh.Out) {
 			{code: 9, t: c03Sid{9, 1, 0}},
 		})
 	}
+	// SetPeer again after a refused allow-list transfer (fixed by e9a9a54): refused again while
+	// transient has no room; accepted, and charged to system, once a slot is free
+	{
+		c := c03BaseCfg()
+		c.lims[1].Conns = 1
+		c.allow = []c03Allow{{p: c03Prefix{w: [4]uint32{10<<24 | 1<<16 | 1<<8}, len: 24}, peer: 1}}
+		c.pre4 = []c03PreLim{{p: c03Prefix{w: [4]uint32{10<<24 | 1<<16 | 1<<8}, len: 24}, cap: 64}}
+		run("setpeer-after-refused-transfer", c, []c03Op{
+			{code: 1, i: 0, inb: true, fd: true, ep: v4(2, 1)}, // takes transient's only slot
+			{code: 1, i: 1, inb: true, fd: true, ep: v4(1, 1)}, // retried through the allow-listed scopes
+			{code: 2, i: 1, q: 2},                              // not the allowed peer: transfer refused by transient
+			{code: 2, i: 1, q: 2},                              // refused again
+			{code: 9, t: c03Sid{9, 0, 0}},
+			{code: 2, i: 1, q: 2}, // now accepted: peer + system
+			{code: 9, t: c03Sid{9, 1, 0}},
+		})
+	}
 	// refusal at each edge of a stream with protocol and service attached
 	for edge := 0; edge < 6; edge++ {
 		c := c03BaseCfg()
@@ -1291,7 +1311,7 @@ func c03Corpus(t testing.TB, out *verifh.Out) {
 			{code: 6, t: c03Sid{11, 1, 0}, sz: 41, prio: 255}, // refused at the tight edge, undone everywhere
 			{code: 6, t: c03Sid{11, 1, 0}, sz: 40, prio: 255},
 			{code: 6, t: c03Sid{11, 1, 0}, sz: 0, prio: 0}, // zero bytes at priority 0: over the scaled limit
-			{code: 9, t: c03Sid{10, 0, 0}},                  // owner closed under its spans
+			{code: 9, t: c03Sid{10, 0, 0}},                 // owner closed under its spans
 			{code: 6, t: c03Sid{11, 1, 0}, sz: 1, prio: 255},
 			{code: 7, t: c03Sid{11, 1, 0}, sz: 40},
 			{code: 9, t: c03Sid{11, 1, 0}},
